@@ -88,12 +88,12 @@ def rulesOp (prof rule : String) (s : List Nat) : String :=
   | "nick", "addmap" => fmtRes (trimSpaces s)
   | _, _ => na
 
-def stabilizeOp (start table : String) : String :=
-  -- state i is the string "a" repeated i+1 times (see harness/src/ops.rs)
+def stabilizeOp (start table : String) (family : String := "") : String :=
+  -- states: see `Proto.stabState` (family 0: "a" repeated i+1 times; family 1: multi-byte strings sharing prefixes)
   let tab := ((table.splitOn " ").filter (· ≠ "")).toArray
-  let st (i : Nat) : List Nat := List.replicate (i + 1) 0x61
+  let st (i : Nat) : List Nat := stabState family i
   let f : List Nat → Res (List Nat) := fun s =>
-    match tab[s.length - 1]? with
+    match tab[stabIndex family s]? with
     | some "E" => .err .profileRuleNA
     | some "I" => .err .invalid
     | some t => .ok (st t.toNat!)
@@ -211,7 +211,7 @@ def runModel (line : String) : String :=
     | "enforce" => fmtRes (p.enforce (parseStr (arg 5)))
     | "compare" => fmtBool (p.compare (parseStr (arg 5)) (parseStr (arg 6)))
     | _ => "PROTOCOL-ERROR"
-  | "stabilize" => stabilizeOp (arg 1) (arg 2)
+  | "stabilize" => stabilizeOp (arg 1) (arg 2) (arg 3)
   | "cmp" => cmpOps (parseEntry (arg 1)) (arg 2).toNat!
   | "composed" =>
     (match arg 1, arg 2 with
@@ -240,6 +240,13 @@ def nextSc (cp : Nat) : Option Nat := if cp == 0x10FFFF then none else if cp == 
 /-- result with the probed code point written "c" and its neighbour "p" -/
 def fmtPC (nb : Option Nat) (cp : Nat) (t : List Nat) : String :=
   " ".intercalate (t.map (fun x => if x == cp then "c" else if some x == nb then "p" else hex4 x))
+
+def dirOk (s : List Nat) : String :=
+  match directionalityRule s with | .ok t => (if t == s then "ok" else "changed") | _ => "err"
+/-- the known deviation (interior NSM) is the model's, not the RFC's: on these templates the RFC verdict is what counts,
+except where the label has an interior NSM (then the characterised deviation applies and the model's answer is expected) -/
+def specDirOk (s : List Nat) : String :=
+  match Spec.specDirectionality Spec.bidi16 s with | .ok _ => "ok" | _ => "err"
 
 def evalFn (name : String) (cp : Nat) : Option String :=
   let sc := isScalar cp
@@ -298,6 +305,18 @@ def evalFn (name : String) (cp : Nat) : Option String :=
   | "spec_case_p" => if sc then some (fmtPC (prevSc cp) cp (Spec.specCase ([0x41] ++ (prevSc cp).toList ++ [cp]))) else none
   | "nickmap_trail" => if sc then some (match trimSpaces [0x61, cp, 0x20, 0x20] with | .ok t => fmtPC none cp t | _ => "err") else none
   | "spec_nickmap_trail" => if sc then some (fmtPC none cp (Spec.specSpaces [0x61, cp, 0x20, 0x20])) else none
+  | "dir_rE" => if sc then some (dirOk [0x5D0, 0x2D, cp]) else none
+  | "dir_rcr" => if sc then some (dirOk [0x5D0, cp, 0x5D0]) else none
+  | "dir_lcl" => if sc then some (dirOk [0x61, cp, 0x61]) else none
+  | "dir_rcn" => if sc then some (dirOk [0x5D0, cp, 0x5B0]) else none
+  | "spec_dir_rE" => if sc then some (specDirOk [0x5D0, 0x2D, cp]) else none
+  | "spec_dir_rcr" => if sc then some (specDirOk [0x5D0, cp, 0x5D0]) else none
+  | "spec_dir_lcl" => if sc then some (specDirOk [0x61, cp, 0x61]) else none
+  | "spec_dir_rcn" => if sc then some (specDirOk [0x5D0, cp, 0x5B0]) else none
+  | "zwnj_b2" => if sc then some (fmtCtx (applyRule .zwnj [0x626, cp, 0x5BF, 0x200C, 0x626] 3)) else none
+  | "zwnj_a2" => if sc then some (fmtCtx (applyRule .zwnj [0x626, 0x200C, 0x5BF, cp, 0x626] 1)) else none
+  | "spec_zwnj_b2" => if sc then some (if Spec.cond .zwnj [0x626, cp, 0x5BF, 0x200C, 0x626] 3 then "ok:true" else "ok:false") else none
+  | "spec_zwnj_a2" => if sc then some (if Spec.cond .zwnj [0x626, 0x200C, 0x5BF, cp, 0x626] 1 then "ok:true" else "ok:false") else none
   | "zs" => if sc then some (bS (isSpaceSeparator cp)) else none
   | "nonascii_zs" => if sc then some (bS (isNonAsciiSpace cp)) else none
   | "std_upper" => if sc then some (bS (isUppercase cp)) else none
